@@ -181,11 +181,11 @@ def gen_cases(rng, tier):
         if any(x):
             add({"op": "ONormalize", "x": x})
     pairs = [(x, y) for x in SO_ for y in SO_]
-    for x, y in (rng.sample(pairs, 500) if q else pairs):
+    for x, y in (rng.sample(pairs, 400) if q else pairs):
         add({"op": "OMul", "x": x, "y": y})
         add({"op": "OMod", "x": x, "y": y})
     # ---- random, mostly large
-    n = 90 if q else 700
+    n = 75 if q else 700
     for _ in range(n):
         x, y = rs(rng), rs(rng)
         for op in ("SAdd", "SSub", "SMul", "SEq"):
@@ -257,7 +257,7 @@ def gen_cases(rng, tier):
         add({"op": "OLaw", "x": ro(rng, b), "y": ro(rng, b), "z": ro(rng, b), "n": rint(rng, 40)})
         add({"op": "DLaw", "m": rdm(rng, 12), "m2": rdm(rng, 12), "m3": rdm(rng, 12)})
     # ---- primality
-    for v in range(-3, 1500 if q else 20000):
+    for v in range(-3, 1200 if q else 20000):
         add({"op": "PPrime", "n": v})
         add({"op": "PPrimeb", "n": v})
     corpus = [561, 1105, 1729, 2047, 3277, 4033, 4681, 8321, 9409, 10201, 3215031751, 2152302898747,
@@ -386,7 +386,7 @@ def run(ctx):
     ctx.coq_props()
     rng = ctx.rng
     cases = gen_cases(rng, ctx.tier)
-    obs = ctx.run_impl("c16_impl.py", {"cases": cases, "timeout": 5.0})
+    obs = ctx.run_impl("c16_impl.py", {"cases": cases, "timeout": 3.0})
     terms, owner = [], []
     hist = {}
     stats = {"timeouts": 0, "errors": 0, "none": 0, "dioph_solved": 0, "dioph_none": 0, "dioph_err": 0,
@@ -402,6 +402,11 @@ def run(ctx):
         hist[op] = hist.get(op, 0) + 1
         if o == "TIMEOUT":
             stats["timeouts"] += 1
+            if op in ("dioph", "SLaw", "OLaw", "DLaw"):
+                continue            # randomised factoring inside: a slow run is not a disagreement
+            # the model must not produce a value where the implementation hangs (fuel exhausted = OErr)
+            terms.append(f"({g_case(c)}, OErr)")
+            owner.append((i, "implementation did not terminate within the time limit but the model returns"))
             continue
         if o == "ERR":
             stats["errors"] += 1
